@@ -302,7 +302,8 @@ def sample(items, k, rng, core=()):
     if len(items) <= k:
         return list(items)
     core = list(core)
-    rest = [x for x in items if x not in core]
+    core_ids = {id(x) for x in core}          # (identity, not equality: the lists are long)
+    rest = [x for x in items if id(x) not in core_ids]
     rng.shuffle(rest)
     groups = {}
     for x in rest:
